@@ -762,3 +762,33 @@ def _r4_4(rep):
 
 
 RULES.rule("R4.4", "merging extern blocks never moves a function under another ABI (merge key compares abi, attrs, unsafety)", floor=3)(_r4_4)
+
+
+@RULES.rule("R4.5", "globals keep their mutability: const-ness is read through typedefs; only constants are emitted by value", floor=2)
+def r4_5(rep):
+    """`typedef const int cint; extern cint x;` must be `pub static x` (repaired by a fix: commit: the canonical type is asked too).
+    `int counter = 5;` is a mutable global with a symbol: emitting it as `pub const counter = 5` (what happens today: the initialiser
+    is evaluated for every integer variable and a value always wins in Var::codegen) loses both the symbol and the mutability."""
+    prog = rep.prog
+    vp = rep.need(prog.impl_fn("parse::ClangSubItemParser", "ir::var::Var", "parse"), "<Var as ClangSubItemParser>::parse")
+    lets = [n for n in vp.walk() if n["k"] == "Let" and n["pat"].get("name") == "is_const"]
+    if rep.check(len(lets) == 1, "var:is_const-definition", "one definition of is_const in Var::parse", vp.loc(vp.root)):
+        calls = [(c.get("callee") or "") + "@" + vp.canon(c["recv"], 3) for c in vp.calls(lambda n: n["k"] == "MCall" and n["name"] == "is_const", lets[0]["init"])]
+        rep.check(any("canonical_type" in c for c in calls), "var:constness-through-typedef",
+                  "is_const also asks the canonical type (a qualifier hidden behind a typedef) (found %s)" % calls, vp.loc(lets[0]))
+    vc = rep.need(prog.impl_fn("codegen::CodeGenerator", "ir::var::Var", "codegen"), "<Var as CodeGenerator>::codegen")
+    consts = [q for q in quote_sites(vc) if q.has("pub", "const")]
+    rep.need(consts, "`pub const` emission in Var::codegen")
+    # by-value emission requires constness: either codegen tests is_const, or parse only stores values of const variables
+    guarded_cg = all(any("Var::is_const" in a and p for a, p, _ in guard_atoms(vc, q.root)) for q in consts)
+    news = [c for c in vp.calls(lambda n: n["k"] == "Call" and (n.get("callee") or "").endswith("var::Var::new"))]
+    guarded_parse = False
+    for c in news:
+        if len(c["args"]) >= 6 and "is_const" in vp.canon(c["args"][5], 3):
+            val = strip(c["args"][4])
+            init = vp.local_init(val["id"]) if val.get("k") == "Local" else None
+            if init is not None and any("is_const" in a and p for x in vp.walk(init) if x["k"] in ("Call", "MCall") for a, p, _ in guard_atoms(vp, x)):
+                guarded_parse = True
+    rep.check(guarded_cg or guarded_parse, "var:mutable-global-emitted-as-const@Var::codegen",
+              "a variable is emitted as `pub const NAME = value` whenever its initialiser could be evaluated, whether or not it is const: "
+              "`int counter = 5;` loses its symbol and mutability", consts[0].loc())
